@@ -970,20 +970,37 @@ package mocrelay
 //@   ensures[C04] result != nil && retained(c, result)
 //@   ensures[C04] all(k, string, has(c.evs, k) ==> c.evs[k].CreatedAt >= result.CreatedAt)
 
+//@ func eventCacheEvsIndex.keysFromEvent
+//@   serves C03 C15
+//@   requires event != nil
+//@   writes nothing
+//@   ensures[C03] forall(i, 0, len(result), evKeyOf(event, result[i]))
+//@   ensures[C03] all(key, eventCacheEvsIndexKey, evKeyOf(event, key) ==> exists(i, 0, len(result), result[i] == key))
+//@   loop 1 as n
+//@     invariant len(ret) >= 3 && ret[0] == idxKeyID(event.ID) && ret[1] == idxKeyAuthor(event.Pubkey) && ret[2] == idxKeyKind(event.Kind)
+//@     invariant forall(i, 0, len(ret), evKeyOf(event, ret[i]))
+//@     invariant forall(j, 0, n, idxTag(event.Tags[j]) ==> exists(i, 0, len(ret), ret[i] == idxKeyTag(event.Tags[j])))
+
 //@ func eventCacheEvsIndex.Add
 //@   serves C03 C15
-//@   requires c != nil && c.idx != nil && event != nil && idxLocked(c, 2)
+//@   requires c != nil && c.idx != nil && wfEvent(event) && idxLocked(c, 2) && idxMemOK(c)
 //@   writes contents(c.idx), eachkey(k, c.idx, contents(c.idx[k]))
 //@   ensures all(k, eventCacheEvsIndexKey, has(c.idx, k) ==> ((old(has(c.idx, k)) && c.idx[k] == old(c.idx[k])) || fresh(c.idx[k])))
+//@   ensures idxMemOK(c)
 //@   loop 1
-//@     invariant all(k, eventCacheEvsIndexKey, has(c.idx, k) ==> ((old(has(c.idx, k)) && c.idx[k] == old(c.idx[k])) || fresh(c.idx[k])))
+//@     lwrites contents(c.idx), eachkey(k, c.idx, contents(c.idx[k]))
+//@     invariant idxMemOK(c)
+//@     invariant all(k, eventCacheEvsIndexKey, has(c.idx, k) ==> ((old(has(c.idx, k)) && c.idx[k] == old(c.idx[k])) || lfresh(c.idx[k])))
 
 //@ func eventCacheEvsIndex.Delete
 //@   serves C03 C15
-//@   requires c != nil && c.idx != nil && event != nil && idxLocked(c, 2)
+//@   requires c != nil && c.idx != nil && wfEvent(event) && idxLocked(c, 2) && idxMemOK(c)
 //@   writes contents(c.idx), eachkey(k, c.idx, contents(c.idx[k]))
 //@   ensures all(k, eventCacheEvsIndexKey, has(c.idx, k) ==> (old(has(c.idx, k)) && c.idx[k] == old(c.idx[k])))
+//@   ensures idxMemOK(c)
 //@   loop 1
+//@     lwrites contents(c.idx), eachkey(k, c.idx, contents(c.idx[k]))
+//@     invariant idxMemOK(c)
 //@     invariant all(k, eventCacheEvsIndexKey, has(c.idx, k) ==> (old(has(c.idx, k)) && c.idx[k] == old(c.idx[k])))
 
 //@ func EventCache.delete
@@ -1005,7 +1022,7 @@ package mocrelay
 //@   serves C04 C15
 //@   uses id_determines_address
 //@   opt merge=off
-//@   requires held(c.mu) == 2 && cacheWF(c) && event != nil && !isEphemeralKind(event.Kind) && eventKey == cacheKeyOf(event)
+//@   requires held(c.mu) == 2 && cacheWF(c) && wfEvent(event) && !isEphemeralKind(event.Kind) && eventKey == cacheKeyOf(event)
 //@   writes contents(c.evs), contents(c.deleted), eachkey(k, c.deleted, contents(c.deleted[k])), contents(c.evsIndex.idx), eachkey(k, c.evsIndex.idx, contents(c.evsIndex.idx[k])), ghost(tmdom, c.evsCreatedAt), ghost(tmval, c.evsCreatedAt), ghost(tmsize, c.evsCreatedAt)
 //@   ensures[C04] added == !(old(has(c.evs, eventKey)) && old(c.evs[eventKey]).CreatedAt >= event.CreatedAt)
 //@   ensures[C04] added ==> (has(c.evs, eventKey) && c.evs[eventKey] == event && len(c.evs) == old(len(c.evs)) + ite(old(has(c.evs, eventKey)), 0, 1))
@@ -1021,7 +1038,8 @@ package mocrelay
 //@   writes contents(c.deleted), eachkey(k, c.deleted, contents(c.deleted[k]))
 //@   ensures all(k, eventCacheDeletedEventKey, has(c.deleted, k) ==> ((old(has(c.deleted, k)) && c.deleted[k] == old(c.deleted[k])) || fresh(c.deleted[k])))
 //@   loop 1
-//@     invariant all(k, eventCacheDeletedEventKey, has(c.deleted, k) ==> ((old(has(c.deleted, k)) && c.deleted[k] == old(c.deleted[k])) || fresh(c.deleted[k])))
+//@     lwrites contents(c.deleted), eachkey(k, c.deleted, contents(c.deleted[k]))
+//@     invariant all(k, eventCacheDeletedEventKey, has(c.deleted, k) ==> ((old(has(c.deleted, k)) && c.deleted[k] == old(c.deleted[k])) || lfresh(c.deleted[k])))
 
 //@ func EventCache.deleteByKind5
 //@   serves C04 C05 C15
@@ -1045,7 +1063,7 @@ package mocrelay
 //@ func EventCache.Add
 //@   serves C04 C05 C15 C16
 //@   uses id_determines_address
-//@   requires c != nil && event != nil && held(c.mu) == 0
+//@   requires c != nil && wfEvent(event) && held(c.mu) == 0
 //@   writes contents(c.evs), contents(c.deleted), eachkey(k, c.deleted, contents(c.deleted[k])), contents(c.evsIndex.idx), eachkey(k, c.evsIndex.idx, contents(c.evsIndex.idx[k])), ghost(tmdom, c.evsCreatedAt), ghost(tmval, c.evsCreatedAt), ghost(tmsize, c.evsCreatedAt), ghost(lastadd, c), ghost(addlog, c), lock(c.mu)
 //@   ensures[C15] held(c.mu) == 0
 //@   ensures[C04] isEphemeralKind(event.Kind) ==> (added && all(k, string, has(c.evs, k) == old(has(c.evs, k)) && c.evs[k] == old(c.evs[k])))
@@ -1058,17 +1076,79 @@ package mocrelay
 //@   promises all(k, eventCacheEvsIndexKey, has(c.evsIndex.idx, k) ==> ((old(has(c.evsIndex.idx, k)) && c.evsIndex.idx[k] == old(c.evsIndex.idx[k])) || fresh(c.evsIndex.idx[k])))
 //@   promises len(g(addlog, c)) == len(old(g(addlog, c))) + 1 && forall(i, 0, len(g(addlog, c)), g(addlog, c)[i] == ite(i < len(old(g(addlog, c))), old(g(addlog, c))[i], event))
 
+//@ func eventCacheEvsIndex.isFullScanReqFilter
+//@   serves C03 C15
+//@   requires filter != nil
+//@   pure
+//@   ensures[C03] result == !(filter.IDs != nil || filter.Authors != nil || filter.Kinds != nil || len(filter.Tags) > 0)
+
+//@ func eventCacheEvsIndex.keysFromReqFilter
+//@   serves C03 C15
+//@   requires filter != nil
+//@   writes nothing
+//@   ensures (filter.IDs != nil || filter.Authors != nil || filter.Kinds != nil || len(filter.Tags) > 0) ==> len(result) >= 1
+//@   loop 4 visited vs
+//@     invariant len(ret) >= lold(len(ret)) && all(k, string, vs[k] ==> len(ret) >= 1)
+
+//@ func eventCacheEvsIndex.Find
+//@   serves C03 C15
+//@   opt overflow=assume
+//@   requires c != nil && c.idx != nil && filter != nil && idxLocked(c, 1) && idxMemOK(c)
+//@   writes nothing
+//@   ensures ok == !(filter.IDs == nil && filter.Authors == nil && filter.Kinds == nil && len(filter.Tags) == 0)
+//@   ensures ok ==> (ret != nil && fresh(ret) && treeValsOK(ret))
+//@   loop 1 as n
+//@     lwrites nothing
+//@     invariant len(idMaps) == n && forall(i, 0, len(idMaps), idMaps[i] != nil && fresh(idMaps[i]) && mapMemOK(idMaps[i]))
+//@   loop 2
+//@     lwrites contents(m)
+//@     invariant m != nil && fresh(m) && mapMemOK(m)
+//@   loop 3
+//@     lwrites contents(m)
+//@     invariant m != nil && fresh(m) && mapMemOK(m)
+//@   loop 4
+//@     lwrites each(i, 0, len(idMaps), contents(idMaps[i]))
+//@     invariant len(idMaps) >= 1 && len(idMaps) <= lold(len(idMaps))
+//@     invariant forall(i, 0, len(idMaps), idMaps[i] == lold(idMaps[i]))
+//@     invariant forall(i, 0, len(idMaps), idMaps[i] != nil && fresh(idMaps[i]))
+//@     invariant forall(i, 0, len(idMaps), mapMemOK(idMaps[i]))
+//@   loop 5
+//@     lwrites contents(m)
+//@     invariant mapMemOK(m)
+//@   loop 6
+//@     lwrites ghost(tmdom, ret), ghost(tmval, ret), ghost(tmsize, ret)
+//@     invariant ret != nil && fresh(ret) && treeValsOK(ret) && g(tmsize, ret) >= 0
+
+//@ func EventCache.findNeedLock
+//@   serves C03 C15
+//@   opt overflow=assume
+//@   requires c != nil && held(c.mu) == 0 && forall(i, 0, len(filters), filters[i] != nil)
+//@   writes lock(c.mu)
+//@   ensures[C15] held(c.mu) == 0 && (result == nil || fresh(result))
+//@   loop 1
+//@     lwrites ghost(tmdom, ret), ghost(tmval, ret), ghost(tmsize, ret)
+//@     invariant ret != nil && fresh(ret)
+//@   loop 2
+//@     lwrites ghost(tmdom, ret), ghost(tmval, ret), ghost(tmsize, ret), it.node
+//@     invariant ret != nil && fresh(ret) && it.tree == t && t != nil && fresh(t) && treeValsOK(t)
+//@   loop 3
+//@     lwrites ghost(tmdom, ret), ghost(tmval, ret), ghost(tmsize, ret), it.node, m.cnt
+//@     invariant ret != nil && fresh(ret) && it.tree == c.evsCreatedAt && m != nil && fresh(m)
+
 //@ func EventCache.Find
-//@   serves C16
-//@   trusted body verified under C03 (query); here only its result register is used
-//@   requires c != nil
+//@   serves C03 C15 C16
+//@   requires c != nil && held(c.mu) == 0 && forall(i, 0, len(filters), filters[i] != nil)
 //@   writes ghost(lastfind, c), ghost(lastfindfilters, c), lock(c.mu)
-//@   ensures result == g(lastfind, c)
-//@   promises g(lastfindfilters, c) == filters
+//@   ensures[C15] held(c.mu) == 0
+//@   promises result == g(lastfind, c) && g(lastfindfilters, c) == filters
+//@   loop 1
+//@     lwrites it.node
+//@     invariant it.tree == tree && tree != nil
 
 //@ func simpleCacheHandler.ServeNostrClientMsg
 //@   serves C16
 //@   requires h != nil && h.c != nil && held(h.c.mu) == 0 && wfClientMsg(msg)
+//@   requires typeis(msg, *ClientEventMsg) ==> wfEvent(as(msg, *ClientEventMsg).Event)
 //@   opt overflow=assume
 //@   ensures result1 == nil
 //@   ensures[C16] typeis(msg, *ClientEventMsg) ==> (holdsOneS(result0) && isOKFor(chanbuf(result0)[0], as(msg, *ClientEventMsg).Event.ID) && as(chanbuf(result0)[0], *ServerOKMsg).Accepted == g(lastadd, h.c))
@@ -1310,13 +1390,13 @@ package mocrelay
 
 //@ func simpleCacheHandler.Dump
 //@   serves C16
-//@   requires h != nil && h.c != nil
+//@   requires h != nil && h.c != nil && held(h.c.mu) == 0
 //@   ensures[C16] result == nil ==> (len(g(lastfindfilters, h.c)) == 1 && isMatchAll(g(lastfindfilters, h.c)[0]) && g(iowritten, refof(w)) == jsonOf(box(g(lastfind, h.c), any)))
 
 //@ func simpleCacheHandler.Restore
 //@   serves C16
 //@   requires h != nil && h.c != nil && held(h.c.mu) == 0
-//@   requires forall(i, 0, len(jsondecoded([]*Event, readAllOf(r))), jsondecoded([]*Event, readAllOf(r))[i] != nil)
+//@   requires forall(i, 0, len(jsondecoded([]*Event, readAllOf(r))), wfEvent(jsondecoded([]*Event, readAllOf(r))[i]))
 //@   ensures[C16] result == nil ==> (jsonok([]*Event, readAllOf(r)) && len(g(addlog, h.c)) == len(old(g(addlog, h.c))) + len(jsondecoded([]*Event, readAllOf(r))))
 //@   ensures[C16] result == nil ==> forall(j, 0, len(g(addlog, h.c)), g(addlog, h.c)[j] == ite(j < len(old(g(addlog, h.c))), old(g(addlog, h.c))[j], jsondecoded([]*Event, readAllOf(r))[j - len(old(g(addlog, h.c)))]))
 //@   loop 1 as i
